@@ -252,6 +252,27 @@ func TestC19NFS40Retransmission(t *testing.T) {
 	rapid.Check(t, func(rt *rapid.T) { runCase(t, rt, rec, profC19) })
 }
 
+// profC19Locks is the retransmission mix shifted towards lock-owners:
+// several confirmed opens per client, many LOCK requests that introduce
+// a lock-owner to a further open file, and more altered seqids.
+var profC19Locks = &profile{
+	property: "C19", name: "lock_owner_seqids",
+	ops: weights(map[string]int{
+		kOpen: 7, kOpenConfirm: 5, kClose: 2, kLock: 22, kLocku: 5, kReleaseLockowner: 1,
+		kSetclientid: 1, kSetclientidConfirm: 1, kRenew: 1, "advance": 1, "release": 4,
+		"retx": 8, "retx_diff_op": 2, "retx_diff_sid": 2, kPreset: 1,
+	}),
+	minSteps: 20, maxSteps: 60, devPct: 22, parkPct: 8, warmPct: 95, warmOpen: true, confirmPct: 95, sharedLO: true, inflightRetxPct: 40, dupParkedPct: 10, gatePct: 20,
+	nontrivial: func(ev, labels map[string]int) bool {
+		return ev["out_of_order_lock_seqid_with_new_lock_owner_flag"] > 0 || ev["lock_owner_replay_through_new_open"] > 0
+	},
+}
+
+func TestC19NFS40LockOwnerSeqids(t *testing.T) {
+	rec := simkit.NewRecorder(t, "C19", "nfs40_lock_owner_seqids", commonRule+"PROFILE: lock-owner heavy (LOCK 22 of 63 weights, 22% altered requests, clients warmed up with confirmed opens): lock-owners are introduced to a second and third open file with LOCK(new_lock_owner=true), which RFC 7530 9.1.7 subjects to the lock-owner's seqid ordering although the open-owner's seqid is in order. ORACLE (C19): as TestC19NFS40Retransmission; in particular such a LOCK whose lock seqid is neither the lock-owner's last one nor its successor => NFS4ERR_BAD_SEQID with no lock taken (read back by the later LOCK/LOCKT replies and the final accounting), the lock-owner's next in-order request still accepted and its last reply still replayable; one with the last lock seqid => the cached LOCK reply (or NFS4ERR_BAD_SEQID after a LOCKU). NON-TRIVIAL: a LOCK(new_lock_owner=true) for a lock-owner that already exists carried an out-of-order lock seqid, or replayed the lock-owner's last LOCK through another open. Distinct by script hash.")
+	rapid.Check(t, func(rt *rapid.T) { runCase(t, rt, rec, profC19Locks) })
+}
+
 func TestC20NFS40ByteRangeLocks(t *testing.T) {
 	rec := simkit.NewRecorder(t, "C20", "nfs40_locks", commonRule+"ORACLE (C20b): per-file per-byte lock table keyed by (client registration, lock-owner bytes) over a 33-unit compressed offset universe (bytes 0..15, gap, 16 highest offsets, ranges to 2^64-1 and length all-ones): LOCK granted <=> the model has no conflict; a DENIED reply names an owner/type/range that the model says is really held, overlaps and conflicts; LOCKT DENIED <=> the same LOCK would be denied (own locks never conflict, unknown owners conflict with everyone, unopened files never conflict); LOCKU frees exactly the bytes; CLOSE / RELEASE_LOCKOWNER / lease expiry / re-registration free exactly that open's / owner's / client's bytes; RELEASE_LOCKOWNER => NFS4ERR_LOCKS_HELD <=> the owner still holds bytes; lock state IDs and seqids as predicted; equal owner bytes under different clients are different owners; offset+length = 2^64-1 is the largest finite range, 2^64 and beyond, length 0 and offset 2^64-1 with length 1 => NFS4ERR_INVAL, length all-ones = to end of file. TABLE READ-BACK: after every CLOSE, LOCKU, RELEASE_LOCKOWNER, SETCLIENTID_CONFIRM, lease expiry, and before and after the final expiry, the lock table of every file that ever carried a lock is read back with LOCKT for every unit by an observer owner of a client of its own (WRITE and READ) and by every owner that holds bytes (WRITE), maximal runs the model expects to be free of foreign locks as one range; every reply is compared with the per-byte model (status; a DENIED reply through the same check as above), so a lock that was not released, or one released too many, is seen at once. NON-TRIVIAL: two owners held locks on one file at the same time AND a split or merge of an owner's ranges happened AND a range ended at the maximum offset. Distinct by script hash.")
 	rapid.Check(t, func(rt *rapid.T) { runCase(t, rt, rec, profC20) })
